@@ -79,7 +79,8 @@ trait MaybeEqual {
 impl MaybeEqual for VariableAccess {
     fn maybe_equal(&self, other: &VariableAccess) -> bool {
         use AccessType::*;
-        if self.var.name() != other.var.name() {
+        // Two declarations with the same name are told apart by their suffixes.
+        if self.var.name() != other.var.name() || self.var.suffix() != other.var.suffix() {
             return false;
         }
         if self.access.len() != other.access.len() {
